@@ -1,5 +1,5 @@
 SPECIFICATION GSpec
 CONSTANTS KA = {"f3", "sub"}
-          KB = {"none", "f12"}
+          KB = {"f12"}
           KC = {"frep", "raw1"}
 INVARIANTS Emit
